@@ -3,6 +3,7 @@ import Mutagen.Proofs.Lifecycle
 import Mutagen.Proofs.Lifecycle2
 import Mutagen.Proofs.Lifecycle3
 import Mutagen.Proofs.Lifecycle4
+import Mutagen.Proofs.Lifecycle5
 /-!
 # C29 — session lifecycle commands take effect exactly as documented
 
@@ -117,5 +118,62 @@ theorem terminate_final {w : Bool} {tr : List Label} {s s' : State} {t : Nat}
   obtain ⟨g1, g2, g3, g4, g5, g6⟩ := g
   subst hs'
   exact ⟨g1, g2, g3, g4, g5, g6, he⟩
+
+/-- … and the state reached is `Dead` (no files, no loop, lock free, controller
+disabled, nothing registered) provided nobody is creating a session. -/
+theorem terminate_leaves_dead {w : Bool} {tr : List Label} {s s' : State} {t : Nat}
+    (r : Run (init w) tr s) (st : Step s (.ret t .terminate .ok) s')
+    (hnc : ∀ th ∈ s.threads, th.op ≠ .create true ∧ th.op ≠ .create false) : Dead s' := by
+  obtain ⟨h1, h2, h3, h4, h5, h6, _⟩ := terminate_final r st
+  refine ⟨h1, h2, h3, h4, h5, Or.inl h6, ?_⟩
+  obtain ⟨_, hs'⟩ := ret_source st
+  subst hs'
+  intro th hth
+  simp only [State.dropThread, List.mem_filter] at hth
+  exact hnc th hth.1
+
+/-- **A terminated session never runs again.** `Dead` is closed under every
+step except the arrival of a `create` call (a new session): whatever calls are
+still in flight or arrive later — pause, resume, flush, reset (with
+fixes/C29.patch), terminate, manager restarts — the files stay absent, no run
+loop is ever started, and no endpoint call is made. -/
+theorem dead_stays_dead {s s' : State} {l : Label} (d : Dead s) (st : Step s l s')
+    (hl : ∀ t p, l ≠ .call t (.create p)) : Dead s' ∧ l.isEndpoint = false := by
+  cases st with
+  | call h =>
+    rename_i t op
+    unfold doCall at h
+    split at h
+    · simp at h
+    · simp only [Option.some.injEq] at h
+      subst h
+      refine ⟨⟨d.sess, d.arch, d.running, d.loop, d.crit, ?_, ?_⟩, rfl⟩
+      · rcases d.unreachable with h | h
+        · exact Or.inl h
+        · refine Or.inr ⟨h.1, ?_⟩
+          intro th hth
+          simp only [List.mem_append, List.mem_singleton] at hth
+          rcases hth with hth | hth
+          · exact h.2 th hth
+          · subst hth; simp [mkThread]
+      · intro th hth
+        simp only [List.mem_append, List.mem_singleton] at hth
+        rcases hth with hth | hth
+        · exact d.no_create th hth
+        · subst hth
+          simp only [mkThread]
+          exact ⟨fun e => hl t true (by rw [e]), fun e => hl t false (by rw [e])⟩
+  | internal h =>
+    unfold succ at h
+    rcases List.mem_append.mp h with h | h
+    · simp [d.loop] at h
+    · obtain ⟨th, hth, h⟩ := List.mem_flatMap.mp h
+      refine ⟨dead_thread hth h d, ?_⟩
+      cases hle : l.isEndpoint with
+      | false => rfl
+      | true =>
+        obtain ⟨_, t, ph, hc, _⟩ := threadSteps_endpoint h hle
+        rw [d.crit] at hc
+        simp at hc
 
 end Mutagen.Properties.C29
